@@ -936,8 +936,19 @@ class Engine:
                     sib = [sb["b"] for sb in g.blocks[b]["succs"] if sb["b"] is not None]
                     for o in sib:
                         if o != t and self._throws_only(g, o):
+                            # the event outlives the locals it mentions: state it about the expressions that define them
+                            ldefs = {}
+                            for df in cur:
+                                if df[0] == "==":
+                                    for (x, y) in ((df[1], df[2]), (df[2], df[1])):
+                                        if x[0] == "var" and not mentions(y, x) and y[0] in ("op", "mem", "const", "size"):
+                                            ldefs.setdefault(x, y)
                             for f in cf:
                                 s.add(("ev", "passed", f))
+                                if ldefs and f[0] in ("<", "<=", "==", "!="):
+                                    g2 = substitute(f, ldefs)
+                                    if g2 != f:
+                                        s.add(("ev", "passed", norm_cmp(g2[0], g2[1], g2[2])))
                 # loop exit: per-iteration events that hold at every latch become "each" events
                 if b in loops and t not in loops[b]:
                     latches = [p for p in g.pred[b] if p in loops[b] and p in OUT]
